@@ -26,6 +26,8 @@ def specs(ctx):
                              nmax=6, allow_chain=(jac == "callable"), jacs=(jac,))
         if jac != "callable":
             s["kwargs"]["maxiter"] = min(s["kwargs"]["maxiter"], 8)
+        if i % 5 == 2:
+            s["mutate_args"] = True      # the user's callables overwrite the arrays they are handed
         if rng.random() < 0.3 and "chain" not in s:
             s["scaler"] = [0.01, 3.0, 250.0][int(rng.integers(3))]
         out.append(s)
